@@ -863,9 +863,12 @@ func (s *Server) create(r *Request, body map[string]interface{}) interface{} {
 		r.Pre = runtime.DeepCopyJSON(old)
 		return s.fail(r, 409, "AlreadyExists", "already exists")
 	}
+	if u.GetResourceVersion() != "" {
+		// etcd3 store: "resourceVersion should not be set on objects to be created" (surfaces as 500)
+		return s.fail(r, 500, "InternalError", "resourceVersion should not be set on objects to be created")
+	}
 	// server-populated fields are ignored on create
 	unstructured.RemoveNestedField(o, "metadata", "uid")
-	unstructured.RemoveNestedField(o, "metadata", "resourceVersion")
 	unstructured.RemoveNestedField(o, "metadata", "generation")
 	unstructured.RemoveNestedField(o, "metadata", "deletionTimestamp")
 	unstructured.RemoveNestedField(o, "metadata", "deletionGracePeriodSeconds")
